@@ -30,8 +30,9 @@ def _save(mod, name):
 def fresh_tensor(prefix, shape, lo=None, hi=None, sort="R", free=False, lo_strict=True, hi_strict=True):
     R = sc.reg()
     out = np.empty(tuple(shape), dtype=object)
+    base = R.fresh_name(prefix)
     for idx in np.ndindex(out.shape):
-        nm = R.fresh_name(prefix + "_") if idx == () else "%s_%s" % (R.fresh_name(prefix), "_".join(map(str, idx)))
+        nm = base if idx == () else "%s_%s" % (base, "_".join(map(str, idx)))
         v = R.declare(nm, sort=sort, lo=lo, hi=hi, lo_strict=lo_strict, hi_strict=hi_strict)
         if free:
             if not hasattr(R, "free"):
